@@ -11,6 +11,7 @@ import Driver.C13
 import Driver.C20
 import Driver.C04
 import Driver.C18
+import Driver.C16
 namespace Driver
 
 def dispatch (op : String) : Option Handler :=
@@ -38,6 +39,8 @@ def dispatch (op : String) : Option Handler :=
   | "pctidx" => some Verbs.pctidx
   | "fanout" => some C20.fanout
   | "chainb" => some C04.chainb
+  | "tm" => some C16.tm
+  | "tmrt" => some C16.tmrt
   | "fn" => some C18.noCrash
   | "rdz" => some C18.noCrash
   | "dslr" => some C18.noCrash
